@@ -753,7 +753,10 @@ pub enum SanitizeError {
 pub fn sanitize_request<T>(
     request: &Request<T>,
 ) -> Result<CriticalRequestComponents, SanitizeError> {
-    let uri_decoded_path = percent_decode(request.uri().path());
+    // Lossy, not `percent_decode`: that one returns the *undecoded* text when the decoded bytes
+    // aren't UTF-8, which hides encoded `./` and `/` (e.g. `/%2e%2e/%ff`) from the tests below.
+    let uri_decoded_path =
+        percent_encoding::percent_decode_str(request.uri().path()).decode_utf8_lossy();
     let path_ok = if uri_decoded_path.contains("./") || !uri_decoded_path.starts_with('/') {
         false
     } else {
